@@ -17,7 +17,7 @@ THEOREMS = ["C13_as_trivial_sound", "C13_as_trivial_consistent", "C13_flatten_so
             "C13_selection_predicate_equivalent", "C13_expr_columns_sufficient", "C13_pred_columns_sufficient",
             "C13_expr_columns_necessary"]
 HDR = "From DR Require Import Model.CheckPred.\nOpen Scope Z_scope.\n"
-ENGINE = iteration.Engine(name="it", functions={"vid": lambda x: x})
+ENGINE = iteration.Engine(name="it", functions={"vid": lambda x: x, "vid_it": lambda x: x})
 
 
 def coptb(b):
@@ -102,6 +102,30 @@ def make_cases(rng, tier):
         c = gen.gen_schema(rng, allow_empty=False)
         rs = all_rows(c, (0, 1, 2)) if len(c) <= 2 else [dict(zip(c, [rng.choice((0, 1, 2)) for _ in c])) for _ in range(6)]
         items.append((gen.gen_pred(rng, c, rng.choice([1, 2, 3])), rs))
+    # column-free membership tests (constant item; containers of literals, of column-free computed items, ranges of every
+    # sign), bare and under NOT / AND / OR: whatever as_trivial answers must be the value on every row
+    for _ in range(120 if tier == "quick" else 1500):
+        v = rng.choice([-3, -1, 0, 1, 2, 3])
+        def konst(x):
+            r = rng.random()
+            if r < 0.4:
+                return ("lit", x)
+            if r < 0.6:
+                return ("neg", ("lit", -x))
+            if r < 0.8:
+                return ("add", ("lit", x - 1), ("lit", 1))
+            return ("mul", ("lit", x), ("lit", 1))
+        others = [rng.choice([-2, 0, 1, 4, 5]) for _ in range(rng.choice([0, 1, 2]))]
+        seq = [konst(w) for w in others] + ([konst(v)] if rng.random() < 0.6 else [])
+        rng.shuffle(seq)
+        cont = ("seq", seq) if rng.random() < 0.7 else gen.gen_range(rng)
+        q = ("in", konst(v) if rng.random() < 0.3 else ("lit", v), cont)
+        r = rng.random()
+        if r < 0.3:
+            q = ("not", q)
+        elif r < 0.5:
+            q = (rng.choice(["and", "or"]), [q, ("cmp", "ge", ("ref", cols[0]), ("lit", 1))])
+        items.append((q, rows))
     cases = []
     for p, rs in items:
         res = run_impl(p, rs)
